@@ -78,6 +78,22 @@ Theorem C06_fourth_step_iff : forall s pp G b0 i d, RepInv s pp G b0 ->
 Proof. exact fourth_step_offered_iff. Qed.
 Print Assumptions C06_fourth_step_iff.
 
+(* ... and the same over the WHOLE game: along every game from a start position (ReachH: G = exact turn-start positions
+   since the last capture, Old = all earlier ones) the verdict of the exact rule on the complete list G ++ Old is the
+   verdict on G, so forgetting the history at captures loses nothing *)
+Theorem C06_pass_iff_whole_game : forall s G Old b0, ReachH s G Old b0 -> NoCollisionAt s G b0 (board s) ->
+  In Pass (valid_actions_no_rep s) ->
+  (In Pass (valid_actions s) <-> exact_allowed (G ++ Old) b0 (board s) (negb (side s))).
+Proof. exact pass_offered_iff_whole_game. Qed.
+Print Assumptions C06_pass_iff_whole_game.
+
+Theorem C06_fourth_step_iff_whole_game : forall s pp G Old b0 i d, ReachH s G Old b0 -> ph s = PlayPhase pp ->
+  let nb := board (take_action s (Move i d)) in
+  NoCollisionAt s G b0 nb -> In (Move i d) (valid_actions_no_rep s) -> step_of pp = 3 -> trapped pp = false ->
+  (In (Move i d) (valid_actions s) <-> exact_allowed (G ++ Old) b0 nb (negb (side s))).
+Proof. exact fourth_step_offered_iff_whole_game. Qed.
+Print Assumptions C06_fourth_step_iff_whole_game.
+
 (* after a capture earlier in the turn no fourth step is withheld (no earlier position can recur: C06_forget) *)
 Theorem C06_capture_turn : forall s pp i d, PlayInv s pp -> trapped pp = true ->
   In (Move i d) (valid_actions_no_rep s) -> In (Move i d) (valid_actions s).
